@@ -82,12 +82,13 @@ def gen_specs(tier, seed):
                     specs.append(("none", items))
     # three operators (no brackets / one bracket pair), int-float typings
     if tier == "thorough":
-        k3 = [("int",) * 4, ("float",) * 4, ("int", "float", "int", "float"), ("float", "int", "int", "int"),
-              ("int", "int", "complex", "float")]
+        k3 = list(itertools.product(kinds1, repeat=4))
         for ops in itertools.product(OPS, repeat=3):
             for ks in k3:
                 for br in (None, (0, 1), (1, 2), (2, 3), (0, 2), (1, 3)):
                     for um in (0, 1, 2, 4, 8):
+                        if len(set(ks)) > 2 and (um not in (0, 2) or br in ((0, 2), (1, 3))):
+                            continue      # all-kind typings: fewer sign/bracket variants
                         items = []
                         for i, k in enumerate(ks):
                             if br and br[0] == i:
@@ -318,6 +319,7 @@ def concrete_check(spec, spaced, vals, w=None):
     lv = skel.Leaves(values=vals)
     text, etext, info = render(spec, lv, spaced)
     T.PyAlg.overflow = False
+    T.PyAlg.fscale = 0.0
     try:
         ref, dom = reference(lv, etext, info, w["lang"], False)
     except Exception as e:  # noqa
@@ -335,7 +337,9 @@ def concrete_check(spec, spaced, vals, w=None):
         return {"text": text, "expr": etext, "observed": "%s: %s" % (type(e).__name__, e), "expected": repr(ref), "values": vals}
     finally:
         stubs.reset_tables()
-    ok = U.close(got, ref)
+    # rel. 1e-12 of the largest float intermediate (integer sub-results are exact; rounding errors of float operations are
+    # relative to the operands, so cancellation against a larger intermediate is not a violation)
+    ok = U.close(got, ref) or (R.kind_of(ref) != "int" and abs(complex(got) - complex(ref)) <= 1e-12 * T.PyAlg.fscale)
     if ok and R.kind_of(ref) == "int" and not isinstance(got, (int, np.integer)):
         ok = False
     if ok:
